@@ -50,6 +50,7 @@ def run(tier: str, seed: int) -> int:
     progs += [jetlift.stack_program(rng, dmax=dmax) for _ in range(n_stack)]
     progs.append(dict(kind="lin", d=2, J=1, fromode=True, polys=[[(1, (1, 1, 0)), (1, (0, 0, 3))], [(2, (2, 0, 0))]], tdep=True, L=1, xi=[[1, -1], [2, 0], [1, 3], [0, 1]], t=2, damp=jetlift.F(1, 2)))
     progs += [jetlift.lin_program(rng, dmax=dmax, lmax=2) for _ in range(n_lin)]
+    progs += [jetlift.lin_program(rng, mc_exact=True) for _ in range(4 if tier == "quick" else 20)]
 
     insts, owner = [], []
     for j, p in enumerate(progs):
